@@ -345,6 +345,13 @@ func (n *lazyNode) isNull() bool {
 }
 
 func (n *lazyNode) equal(o *lazyNode) bool {
+	if n == nil || o == nil {
+		// A decoded null is a nil node, a patch-supplied null is a raw "null".
+		nNull := n == nil || (n.which == eRaw && n.isNull())
+		oNull := o == nil || (o.which == eRaw && o.isNull())
+		return nNull && oNull
+	}
+
 	if n.which == eRaw {
 		if !n.tryDoc() && !n.tryAry() {
 			if o.which != eRaw {
